@@ -995,7 +995,7 @@ def main(tier: str) -> int:
         "with 25% repeats (ints, dyadic, uniform steps, large offset, mixed, dwarfing intervals, int clocks of magnitude 2^53..1.7e18 with gaps "
         "1..1e6, ints and floats interleaved around 2^53), Quantity values / Duration clocks through notify, earlier timestamps, end_observations at / "
         f"after / before the last time, observations after closing, re-initialisation; lengths 0..21 plus long runs of {sorted(set(longs))}; "
-        "rejected inputs (NaN, str, None, huge int, negative weight). Getters compared after every call or a sample of calls. non-trivial = "
+        "rejected inputs (NaN, str, None, huge int, negative weight; Quantity weights / timestamps in register and end_observations after ordinary observations; notifications whose event type is a different EventType with the expected name). Getters compared after every call or a sample of calls. non-trivial = "
         "distinct case in which at some compared point >= 3 positively weighted observations (positive-length intervals, and the tally closed, "
         "for the timestamped variant) with >= 2 distinct values were registered since the last initialize, in the regular regime "
         "(|x| <= 1e60, spread >= 1e-6 of the magnitude, weight ratio <= 1e12), and every statistic was checked against the exact rational value")
